@@ -3,6 +3,7 @@ communicators (2D and 3D, cosine and Peskin kernels, both precisions), and the o
 properties' observable statements directly on the implementation."""
 from __future__ import annotations
 
+import itertools
 import subprocess
 from fractions import Fraction
 
@@ -336,6 +337,40 @@ def oracle_c06(seed=0, tier="quick", aimed=None):
                     "oracle": "c06_position_field", **info, "max_error": float(err), "positions": pos.tolist()}}
         if len(samples) < 2:
             samples.append({"oracle": "c06_weights", **info, "markers": n, "kinds": sorted(set(kinds))})
+    # ---- markers ON the cell centres of a simulator-like grid (x_range / n spacings that are not powers of two), the most natural
+    #      marker set there is: the window is symmetric about the marker, so both kernels return the marker's own coordinates when
+    #      the coordinate field is interpolated, and the nearest index is the marker's own cell
+    for ci, (dim, kernel, real_t) in enumerate(itertools.product((2, 3), ("cosine", "peskin"), (np.float64, np.float32))):
+        r = impl.rng(seed, "c06centres", ci)
+        nxs = [20, 24, 48, 100, 36] if tier == "quick" else [20, 24, 48, 100, 36, 28, 60, 72]
+        for nx in nxs[ci % 2::2] if tier == "quick" else nxs:
+            xr = [1.0, 1.3, 0.7][nx % 3]
+            dx = real_t(xr / nx)
+            shape = (12, 14) if dim == 2 else (9, 10, 11)
+            shift = real_t(dx / 2)
+            axes = [((np.arange(s_) + 0.5) * dx).astype(real_t) for s_ in shape]           # as FlowSimulator._init_domain builds them
+            mesh = np.meshgrid(*axes, indexing="ij")
+            posf = np.array(mesh[::-1]).astype(real_t)
+            cells = [tuple(int(v) for v in r.integers(2, np.array(shape) - 3)) for _ in range(40)]
+            n = len(cells)
+            pos = np.array([[posf[(c,) + cell] for cell in cells] for c in range(dim)], dtype=real_t)
+            cls = ibo.EulerianLagrangianGridCommunicator2D if dim == 2 else ibo.EulerianLagrangianGridCommunicator3D
+            cv = cls(dx=dx, eul_grid_coord_shift=shift, num_lag_nodes=n, interp_kernel_width=2, real_t=real_t, n_components=dim, interp_kernel_type=kernel)
+            sup = np.zeros((dim,) + (4,) * dim + (n,), dtype=real_t); idx = np.zeros((dim, n), dtype=int); w = np.zeros((4,) * dim + (n,), dtype=real_t)
+            cv.local_eulerian_grid_support_of_lagrangian_grid_kernel(sup, idx, pos)
+            cv.interpolation_weights_kernel(w, sup)
+            out = np.zeros((dim, n), dtype=real_t)
+            cv.eulerian_to_lagrangian_grid_interpolation_kernel(out, posf, w, idx)
+            cases += 1
+            err = np.abs(out.astype(np.float64) - pos.astype(np.float64)).max()
+            eps = float(np.finfo(real_t).eps)
+            info = {"dim": dim, "kernel": kernel, "dtype": real_t.__name__, "grid": list(shape), "dx": float(dx), "x_range": xr, "cells_per_x_range": nx}
+            if err > 0.05 * float(dx):
+                m_ = int(np.argmax(np.abs(out.astype(np.float64) - pos.astype(np.float64)).max(axis=0)))
+                return {"ok": False, "cases": cases, "samples": samples, "failing_input": {
+                    "oracle": "c06_markers_on_cell_centres", **info, "max_error_in_dx": float(err / float(dx)),
+                    "what": "coordinate field interpolated at a marker that sits on a cell centre does not return the marker position",
+                    "marker_position": pos[:, m_].tolist(), "marker_cell_zyx": list(cells[m_]), "nearest_index_xyz": [int(v) for v in idx[:, m_]]}}
     # ---- the coupling as the simulators wire it: a real flow simulator's coordinate field interpolated by a real
     #      interactor's own communicator (its grid shift, its kernel) at the body's markers returns the marker positions
     #      (cosine kernel: to within its first-moment error, far below the half-cell error of a wrong grid shift), and the
